@@ -1,11 +1,14 @@
 (* C02 -- pinned statements only (generated once by tools/pin.py from `Check`, then fixed).
-   PARTIAL: the full statement RcSnapP.C02_statement is NOT proved; what is proved is the two legs of the
-   library's argument (grace period for roots: RcEpochP.v; age of every stamp for cascade children: RcSnapP.v,
-   with C12's soundness of the modular test) and the soundness of the executable checker that evaluates the
-   statement on every replayed state. *)
+   The statement over the model is C02_snap_valid below (RcSnapInvP.v): along every run from a fresh state, under
+   the named run hypotheses [c02_run] (H2 pinned: the epochs read by decrement_strong / is_not_destructed / the
+   cascade are within one of the global epoch -- the implementation is pinned there, the model does not pin inside
+   deferred functions; H3 scoped: Snapshots belong to the critical section they were taken in; epoch < 2^62; the two
+   weak-side hypotheses of RcSpec.v), every Snapshot of the current critical section refers to an object that is
+   neither destructed, dropped nor freed.  The earlier lemmas (grace period for roots, age of every stamp for
+   cascade children, soundness of the executable checker) are kept. *)
 From Coq Require Import ZArith List Bool Lia Arith.
 Import ListNotations.
-Require Import Params StateW ModularW DisposeW StateP ModularP Rc RcDepthP RcEpochP RcSnapCheck RcSnapP RcStampP.
+Require Import Params StateW ModularW DisposeW StateP ModularP Rc RcSpec RcP RcWeakP RcDepthP RcEpochP RcSnapCheck RcSnapP RcStampP RcSnapInvP.
 Local Open Scope Z_scope.
 
 Theorem C02_ebr_layer_invariant :
@@ -120,4 +123,76 @@ Theorem C02_stamp_clamped_now :
   STAMP_CLAMPED = true.
 Proof. exact ModularP.stamp_clamped_now. Qed.
 Print Assumptions C02_stamp_clamped_now.
+
+
+(* ---- the main theorem and the pieces of its invariant (RcSnapInvP.v) *)
+Theorem C02_snap_valid :
+  forall (s0 : state) (sched : list (nat * list Z)),
+       fresh_start s0 ->
+       cellops_ok s0 -> bounded_run s0 sched -> c02_run s0 sched -> snap_valid (mrun s0 sched).
+Proof. exact RcSnapInvP.C02_snap_valid. Qed.
+Print Assumptions C02_snap_valid.
+
+Theorem C02_pending_ret :
+  forall (s0 : state) (sched : list (nat * list Z)) (t : nat) (x : thr) (c : cont) 
+         (b : bool) (k : nat) (l : link) (n : nat),
+       fresh_start s0 ->
+       cellops_ok s0 ->
+       bounded_run s0 sched ->
+       c02_run s0 sched ->
+       gett (mrun s0 sched) t = Some x ->
+       incs x = true ->
+       In (FRet c b) (frames x) ->
+       (if b then cok c else cfail c) = HSnap l n ->
+       n = serial x -> fst l <> 0%nat -> k = fst l -> obj_live (mrun s0 sched) k = true.
+Proof. exact RcSnapInvP.C02_pending_ret. Qed.
+Print Assumptions C02_pending_ret.
+
+Theorem C02_counted_never_on_destructed :
+  forall (s0 : state) (sched : list (nat * list Z)),
+       fresh_start s0 ->
+       cellops_ok s0 -> bounded_run s0 sched -> c02_run s0 sched -> scounted_ok (mrun s0 sched).
+Proof. exact RcSnapInvP.scounted_along_runs. Qed.
+Print Assumptions C02_counted_never_on_destructed.
+
+Theorem C02_invariant_preserved :
+  forall (s : state) (t : nat) (rec : list Z) (s' : state) (obs : list Z),
+       CInv s ->
+       bounded s -> bounded s' -> c02_hyp s -> c02_hyp s' -> micro s t rec = Some (s', obs) -> CInv s'.
+Proof. exact RcSnapInvP.micro_cinv. Qed.
+Print Assumptions C02_invariant_preserved.
+
+Theorem C02_protected_not_destructed :
+  forall (s : state) (t : nat) (x : thr) (u : nat) (y : thr) (f : frame) (k : list frame) 
+         (o : nat) (ob : obj),
+       Inv' s ->
+       prot s t x o ->
+       gett s u = Some y ->
+       frames y = f :: k ->
+       frame_attempt o f = 1 ->
+       (forall ob' : obj, ~ casc_frame s x o ob' f) -> geto s o = Some ob -> strong (word ob) = 0 -> False.
+Proof. exact RcSnapInvP.prot_not_fired. Qed.
+Print Assumptions C02_protected_not_destructed.
+
+Theorem C02_protection_stable :
+  forall (s : state) (t : nat) (rec : list Z) (s' : state) (obs : list Z),
+       Inv' s ->
+       Inv' s' ->
+       EOK s ->
+       EOK s' ->
+       pinned s ->
+       RInv s ->
+       bounded s ->
+       bounded s' ->
+       epoch_ok (G s') -> scounted_ok s -> cells_live s -> micro s t rec = Some (s', obs) -> stable s s'.
+Proof. exact RcSnapInvP.micro_stable. Qed.
+Print Assumptions C02_protection_stable.
+
+Theorem C02_residues_not_ahead :
+  forall (s : state) (t : nat) (rec : list Z) (s' : state) (obs : list Z),
+       0 <= G s ->
+       Inv' s ->
+       bounded s -> bounded s' -> kid_recent s -> RInv s -> micro s t rec = Some (s', obs) -> RInv s'.
+Proof. exact RcSnapInvP.micro_rinv. Qed.
+Print Assumptions C02_residues_not_ahead.
 
